@@ -212,5 +212,21 @@ CHECKS["C20"] = {
             "The theorems are about the mechanism; the relation on real forms is decided per fault by the two-run comparison.",
 }
 
+CHECKS["C15"] = {
+    "text": "Proofs (closed under the global context) over model/FsModel.v (camino component lists; join / with_file_name; the component filter of generate_ui; the "
+            "compare-then-write and temp-file + rename sequence of generate_ui_file / with_output_file as an operation list over a finite-map file system): with an output "
+            "directory both outputs of every accepted source are STRICTLY BELOW it (C15_confined) and absolute or parent-escaping sources are refused "
+            "(C15_unsafe_source_refused); names follow the file name rule next to the source (C15_names); re-running on unchanged inputs requests no operation "
+            "(C15_rerun_is_silent); for EVERY prefix of the operation sequence of a run (= every crash point) each output path holds its complete old or complete new "
+            "content (C15_atomic) and no other path changes (C15_only_outputs_touched). Tie: the real command in scratch trees on source-path shapes x output "
+            "directories x options: accepted/refused and the set of created files vs the model (evaluated in Coq on the same component lists). On the real command: "
+            "inode+mtime unchanged on re-run; edit/regenerate sequences rewrite exactly the outputs whose bytes change; strace -- output paths are only rename targets, "
+            "no write-type system call outside the output location; kill by fault injection at system-call index N -- outputs old or new, never torn.",
+    "technique": "Coq proof over a path/file-operation model (all crash points = all prefixes) + command-level differential check + strace observation and kill-point injection",
+    "design_ref": "5 C15",
+    "note": "Trusted: POSIX rename atomicity, the tempfile crate, strace. The theorem is about the operations the code requests; the kill test samples system-call "
+            "boundaries of the real process (all of them in the thorough tier). cmake/QmluicMacros.cmake is not exercised (no cmake project build here).",
+}
+
 NOT_YET = {
 }
